@@ -556,6 +556,9 @@ pub struct SchedSys {
     pub ids: std::collections::BTreeSet<u64>,
     pub sends: usize,
     pub delivered: usize,
+    /// every step so far satisfied the side conditions of `initiator_conformant_delayed` (Props/C28): no Send queued on a
+    /// protocol with an unconfirmed Send on that connection, no reply delivered ahead of the Sent of its request
+    pub in_domain: bool,
 }
 
 pub enum SchedStep { Ok(String), Panic, Dead, Bad }
@@ -564,7 +567,7 @@ const COMMANDS: [&str; 11] = ["include", "hk", "idle", "startsync", "continuesyn
 
 impl SchedSys {
     pub fn new(init: Init) -> Self {
-        SchedSys { init, links: Default::default(), observed: 0, ids: Default::default(), sends: 0, delivered: 0 }
+        SchedSys { init, links: Default::default(), observed: 0, ids: Default::default(), sends: 0, delivered: 0, in_domain: true }
     }
     fn absorb(&mut self, outs: &[OutItem]) {
         for o in outs {
@@ -574,7 +577,7 @@ impl SchedSys {
                     if let Some(LinkSt::Up(l)) = self.links.get_mut(p) {
                         // once a Send overlapped an unconfirmed one of the same protocol, the initiator's and the
                         // responder's views of that protocol on this connection have diverged for good
-                        if l.unconfirmed.iter().any(|(u, _)| proto_of(u) == proto_of(m)) { l.diverged.insert(proto_of(m).to_string()); }
+                        if l.unconfirmed.iter().any(|(u, _)| proto_of(u) == proto_of(m)) { l.diverged.insert(proto_of(m).to_string()); self.in_domain = false; }
                         let taint = l.diverged.contains(proto_of(m));
                         l.unconfirmed.push_back((m.clone(), taint));
                         l.to_resp.push_back((m.clone(), taint));
@@ -596,13 +599,14 @@ impl SchedSys {
     }
     pub fn text(&self, outs: &[OutItem]) -> String {
         let mut s = format!("{} | obs{}", self.init.state_text(outs), self.observed);
+        let dom = if self.in_domain { " dom1" } else { " dom0" };
         for (p, l) in &self.links {
             match l {
                 LinkSt::Pending => s += &format!(" L{p}=pending"),
                 LinkSt::Up(l) => s += &format!(" L{p}=up/u{}/r{}/i{}/{}", l.unconfirmed.len(), l.to_resp.len(), l.to_init.len(), l.w.text()),
             }
         }
-        s
+        s + dom
     }
     fn note_ids(&mut self, op: &[String]) {
         // same rule as the Lean stream: every peer id mentioned by the op (ord/taken ids are added by the annotation on the model side)
@@ -626,7 +630,8 @@ impl SchedSys {
                         // ---- the property: a conformant responder observes a violation ----
                         self.observed += 1;
                         let view = match proto_of(&m) { "hs" => l.w.hs, "ka" => l.w.ka, "ps" => l.w.ps, "bf" => l.w.bf, "cs" => l.w.cs, "tx" => l.w.tx, "ln" => l.w.ln, _ => l.w.lf };
-                        out.viol(format!("{} {} in-state-{}", if taint { "send-before-sent" } else { "nonconformant" }, kind(&m), view),
+                        let class = if self.in_domain { "nonconformant-in-domain" } else if taint { "send-before-sent" } else { "nonconformant" };
+                        out.viol(format!("{} {} in-state-{}", class, kind(&m), view),
                                  format!("peer {p}: responder view {} received {}", l.w.text(), m));
                     }
                 }
@@ -690,10 +695,13 @@ impl SchedSys {
             },
             ["deliver", p, n] => match (nat(p), nat(n)) {
                 (Some(p), Some(n)) => {
+                    let mut overtakes = false;
                     let ms: Vec<String> = if let Some(LinkSt::Up(l)) = self.links.get_mut(&p) {
                         let k = (n as usize + 1).min(l.to_init.len());
+                        overtakes = l.to_init.iter().take(k).any(|r| l.unconfirmed.iter().any(|(u, _)| proto_of(u) == proto_of(r)));
                         l.to_init.drain(0..k).collect()
                     } else { vec![] };
+                    if overtakes { self.in_domain = false; }
                     if ms.is_empty() { Ok((String::new(), vec![])) } else {
                         self.delivered += ms.len();
                         let mut v = vec!["recv".to_string(), p.to_string()];
